@@ -107,6 +107,7 @@ class SessionPlan(Plan):
     n_thorough = 500000
     lens = (10, 25, 60)
     assumptions = SESSION_ASSUMPTIONS
+    stalls = True       # a quarter of the walks block the reactor now and then (not for checks that judge exact deadlines)
 
     def walk_cases(self, tier, seed, n=None, family="walk"):
         n = n if n is not None else (self.n_quick if tier == "quick" else self.n_thorough)
@@ -117,7 +118,7 @@ class SessionPlan(Plan):
                                 walk={"seed": rng.randrange(1 << 30), "flavour": rng.choice(self.flavours),
                                       "n": rng.choice(self.lens if tier == "quick" else self.lens + (150,)),
                                       "persistent": self.walk_persistent(rng), "keepalive": self.walk_keepalive(rng),
-                                      "maxwin": 16})
+                                      "maxwin": 16, "stall": self.stalls and k % 4 == 3})
 
     def tune_cfg(self, cfg, rng):
         return cfg
@@ -132,7 +133,7 @@ class SessionPlan(Plan):
         return ()
 
     def cases(self, tier, seed):
-        return itertools.chain(self.extra_cases(tier, seed), reentrant_end_cases(), invalid_connect_cases(), self.walk_cases(tier, seed))
+        return itertools.chain(self.extra_cases(tier, seed), reentrant_end_cases(), invalid_connect_cases(), long_run_cases(), self.walk_cases(tier, seed))
 
 
 def invalid_connect_cases():
@@ -150,6 +151,57 @@ def invalid_connect_cases():
         yield C.SessionCase("invalid-connect", Cfg(profile=prof), steps=[("build", 0), ("call", 0, "connect", ("x" * 24,), dict(version={"level": 3, "tag": "MQIsdp"}))] + tail)
 
 
+def long_run_cases():
+    """Counts well beyond what the sweeps reach: many reconnects in a row, long queues, many requests
+    of one kind, many exchanges interleaved, many keepalive periods.  Shared by all session checks."""
+    up = [("build", 0), ("setwin", 0, 2), ("connect", 0, False, 0, 4), ("connack", 0, 0, False)]
+    again = [("lose", 0, "lost"), ("build", 0), ("setwin", 0, 2), ("connect", 0, False, 0, 4), ("connack", 0, 0, True)]
+    for model in ("sync", "tcp"):
+        for lvl in (3, 4):
+            cfg = Cfg(profile="pubsub", model=model)
+            # a persistent session dragged through 8 reconnects with an exchange in every stage, then acknowledged
+            st = [("build", 0), ("setwin", 0, 2), ("connect", 0, False, 0, lvl), ("connack", 0, 0, False),
+                  ("pub", 0, 2), ("ack", 0, "PUBREC", "old"), ("pub", 0, 1), ("pub", 0, 2), ("pub", 0, 1), ("inpub", 0, 2)]
+            for k in range(8):
+                st += [("lose", 0, ("lost", "done")[k % 2]), ("build", 0), ("setwin", 0, 2), ("connect", 0, False, 0, lvl), ("connack", 0, 0, True)]
+                if k % 3 == 1:
+                    st += [("tick",)]
+            st += [("ack", 0, "PUBCOMP", "old"), ("ack", 0, "PUBACK", "old"), ("ack", 0, "PUBREC", "old"), ("ack", 0, "PUBCOMP", "old"),
+                   ("ack", 0, "PUBACK", "old"), ("inrel", 0, "known")]
+            yield C.SessionCase("long-run/reconnects", cfg, steps=st)
+            # 40 messages of mixed QoS behind a window of 1 / 3, acknowledged one at a time
+            for win in (1, 3):
+                st = [("build", 0), ("setwin", 0, win), ("connect", 0, True, 0, lvl), ("connack", 0, 0, False)]
+                st += [("pub", 0, (1, 2, 1, 0, 2)[k % 5]) for k in range(40)]
+                for k in range(40):
+                    st += [("ack", 0, "PUBACK", "old"), ("ack", 0, "PUBREC", "old"), ("ack", 0, "PUBCOMP", "old")]
+                yield C.SessionCase("long-run/queue", cfg, steps=st)
+            # a burst of QoS 0 messages (which need no window slot) queued behind a held-back message
+            for win, n0 in ((1, 40), (2, 100)):
+                st = [("build", 0), ("setwin", 0, win), ("connect", 0, True, 0, lvl), ("connack", 0, 0, False)]
+                st += [("pub", 0, 1)] * (win + 1) + [("pub", 0, 0)] * n0 + [("ack", 0, "PUBACK", "old")] * (win + 1)
+                yield C.SessionCase("long-run/qos0-burst", cfg, steps=st)
+            # 24 QoS 2 exchanges interleaved under window 16
+            st = [("build", 0), ("setwin", 0, 16), ("connect", 0, True, 0, lvl), ("connack", 0, 0, False)] + [("pub", 0, 2)] * 24
+            st += [("ack", 0, "PUBREC", "old")] * 24 + [("ack", 0, "PUBCOMP", "new")] * 12 + [("ack", 0, "PUBCOMP", "old")] * 12
+            yield C.SessionCase("long-run/qos2", cfg, steps=st)
+            # 40 subscribe / unsubscribe requests under window 16, answered newest first, then oldest first
+            st = [("build", 0), ("setwin", 0, 16), ("connect", 0, True, 0, lvl), ("connack", 0, 0, False)]
+            for k in range(5):
+                st += [("sub", 0, ("str", "tuple", "list")[k % 3], 3, k % 3)] * 4 + [("unsub", 0, ("str", "list")[k % 2], 2)] * 4
+                st += [("ack", 0, "SUBACK", "new"), ("ack", 0, "UNSUBACK", "new")] * 2 + [("ack", 0, "SUBACK", "old"), ("ack", 0, "UNSUBACK", "old")] * 2
+            yield C.SessionCase("long-run/subs", cfg, steps=st)
+            # 30 inbound messages of each QoS, the QoS 2 ones released afterwards
+            st = [("build", 0), ("connect", 0, True, 0, lvl), ("connack", 0, 0, False)]
+            st += [("inpub", 0, k % 3) for k in range(90)] + [("inrel", 0, "known")] * 30
+            yield C.SessionCase("long-run/inbound", cfg, steps=st)
+            # 60 keepalive periods, each PINGREQ answered half way, with traffic now and then
+            st = [("build", 0), ("connect", 0, True, 2, lvl), ("connack", 0, 0, False)]
+            for k in range(60):
+                st += [("adv", 1.0), ("pingresp", 0)] + ([("pub", 0, 1), ("ack", 0, "PUBACK", "old")] if k % 7 == 3 else []) + [("adv", 1.0)]
+            yield C.SessionCase("long-run/keepalive", cfg, steps=st)
+
+
 def reentrant_end_cases(places=(None,)):
     """A session with requests in every stage ends (connection loss of a clean session, or a clean
     CONNACK over a persistent one) while the application reacts to the failures from inside its
@@ -164,7 +216,7 @@ def reentrant_end_cases(places=(None,)):
         lambda cl: up(cl, 2) + [("pub", 0, 1)] * 3 + [("sub", 0, "str", 1, 1), ("unsub", 0, "str", 1)],
     ]
     behaviours = [dict(re_disc_on="fail"), dict(re_pub_on_fail=True), dict(re_disc_on="fail", re_pub_on_fail=True),
-                  dict(re_pub_on_fail=True, re_connect_on_disc=True)]
+                  dict(re_pub_on_fail=True, re_connect_on_disc=True), dict(re_chain=True, re_pub_on_fail=True)]
     for stage in stages:
         for clean1 in (False, True):
             for win2 in (None, 3):
